@@ -21,7 +21,7 @@ THEOREMS = [
     "Mro.classMro_accept", "Mro.classMro_no_external", "Mro.isException_iff", "Mro.findDunderConstructor_eq_lookup",
     "Mro.overrides_eq_super", "Mro.overriding_sound", "Mro.overriding_nodup", "Mro.overriding_duplicate_counterexample",
     "Mro.inherited_members_iff", "Mro.inherited_attribution",
-    "Mro.early_eq_mro_partial", "Mro.findEarly_eq_find_partial", "Mro.findEarly_diamond_counterexample",
+    "Mro.early_eq_mro", "Mro.findEarly_eq_find", "Mro.findEarly_diamond_counterexample",
     "Mro.second_pass_swapped_order_counterexample", "Mro.second_pass_canonical", "Mro.second_pass_trigger_independent", "Mro.second_pass_wrong_scope_counterexample",
 ]
 RULE = ("exhaustive: every hierarchy of n<=5 classes in which class i takes any ordered duplicate-free list of bases "
@@ -54,10 +54,6 @@ ASSUMPTIONS = [
     "(pydoctor reports it too; both models agree on `reject`)",
 ]
 PARTIAL = {
-    "Mro.early_eq_mro_partial": "the order Class.mro() has while modules are visited (_mro is None: depth-first allbases) equals the "
-                                "final linearisation only under single inheritance without unresolved bases; with multiple "
-                                "inheritance the full statement is false of the code (Mro.findEarly_diamond_counterexample, open "
-                                "finding visit-time-lookup:allbases-order-not-mro)",
     "compute_mro.init_finalbaseobjects": "modelled as Mro.secondPass over the recorded AST-pass data (raw base names, "
                                          "_initialbaseobjects, resolveName table) and proved trigger independent; that the names "
                                          "denote the classes Python binds is checked by the direct oracle only (import cycles, all "
